@@ -222,7 +222,13 @@ var sgrRe = regexp.MustCompile("\x1b\\[[0-9;]*m")
 // StripSGR removes ANSI SGR sequences (the harness's own stripper).
 func StripSGR(s string) string { return sgrRe.ReplaceAllString(s, "") }
 
-// ClockAt builds a local-time clock reading for a model date and minute of day.
+// clockZones: klog reads the wall-clock fields of the instant it is given (local time). The virtual clock therefore carries
+// different zones; the date and time of day a case asks for are the *local* fields, whatever the zone.
+var clockZones = []*time.Location{time.UTC, time.FixedZone("UTC-5", -5*3600), time.FixedZone("UTC+2", 2*3600), time.FixedZone("UTC+5:45", 5*3600+45*60),
+	time.FixedZone("UTC-11", -11*3600), time.FixedZone("UTC+13", 13*3600), time.UTC}
+
+// ClockAt builds a clock reading whose local date and time of day are the given ones; the zone varies deterministically.
 func ClockAt(d ref.Date, minuteOfDay, second int) time.Time {
-	return time.Date(d.Y, time.Month(d.M), d.D, minuteOfDay/60, minuteOfDay%60, second, 0, time.UTC)
+	loc := clockZones[((d.Days()%7+7)%7+minuteOfDay)%len(clockZones)]
+	return time.Date(d.Y, time.Month(d.M), d.D, minuteOfDay/60, minuteOfDay%60, second, 0, loc)
 }
